@@ -1400,6 +1400,14 @@ def run(rep, tier, seed):
                     redo.append(t)
         elif status == "skipped":
             skipped += 1
+        elif "died" in str(val):
+            # the worker process of a whole chunk vanished (killed by the kernel under memory pressure, or a crash
+            # inside Z3): its tasks are re-run one by one below; only a task that kills its own worker again is an error
+            for t in chunks[ci]:
+                if t[0] == "regex":
+                    redo += [("regex", (t[1][0], [sj]), t[2], t[3]) for sj in t[1][1]]
+                else:
+                    redo.append(t)
         else:
             rep.checker_error(f"worker failed on chunk {ci}: {val}")
     if skipped:
